@@ -14,6 +14,21 @@
 #include "lzma_encoder_private.h"
 #include "fastpos.h"
 
+#ifdef TUKAANI_PROJECT_XZ_VERIF
+// Test-only hook H2 (see /verif/DESIGN.md section 4.3): symbol trace.
+// If non-NULL, this is called for every decision of lzma_lzma_optimum_*()
+// right after encode_symbol() has queued it:
+//   kind 0: the symbol (back, len) at uncompressed offset `position`
+//           (as passed to encode_symbol()); read_ahead is mf->read_ahead
+//           after the symbol;
+//   kind 1: the symbol reported by the previous kind-0 call was thrown
+//           away by the output-size limit (rc_forget()).
+// The callback must not call into liblzma. Not thread safe: use it with
+// single-threaded encoders only.
+void (*lzma_verif_sym_cb)(uint32_t kind, uint32_t back, uint32_t len,
+		uint32_t position, uint32_t read_ahead) = NULL;
+#endif
+
 
 /////////////
 // Literal //
@@ -379,6 +394,13 @@ lzma_lzma_encode(lzma_lzma1_encoder *restrict coder, lzma_mf *restrict mf,
 		encode_symbol(coder, mf, back, len,
 				(uint32_t)(coder->uncomp_size));
 
+#ifdef TUKAANI_PROJECT_XZ_VERIF
+		if (lzma_verif_sym_cb != NULL)
+			lzma_verif_sym_cb(0, back, len,
+					(uint32_t)(coder->uncomp_size),
+					mf->read_ahead);
+#endif
+
 		// If output size limiting is active (out_limit != 0), check
 		// if encoding this LZMA symbol would make the output size
 		// exceed the specified limit.
@@ -387,6 +409,13 @@ lzma_lzma_encode(lzma_lzma1_encoder *restrict coder, lzma_mf *restrict mf,
 			// The most recent LZMA symbol would make the output
 			// too big. Throw it away.
 			rc_forget(&coder->rc);
+
+#ifdef TUKAANI_PROJECT_XZ_VERIF
+			if (lzma_verif_sym_cb != NULL)
+				lzma_verif_sym_cb(1, back, len,
+						(uint32_t)(coder->uncomp_size),
+						mf->read_ahead);
+#endif
 
 			// FIXME: Tell the LZ layer to not read more input as
 			// it would be waste of time. This doesn't matter if
